@@ -85,6 +85,8 @@ func addStringIntrinsics(m map[string]intrinsicFn) {
 			m[n] = f
 		}
 	}
+	m["internal/stringslite.Clone"] = func(fr *frame, a []value) value { return a[0] }
+	m["strings.Clone"] = func(fr *frame, a []value) value { return a[0] }
 	m["strings.Index"] = func(fr *frame, a []value) value {
 		p := fr.p
 		s, sub := a[0].(Str), a[1].(Str)
